@@ -183,9 +183,10 @@ func renameCase(src string, keepNames, alphabet bool, st *renameStats, measureWf
 			for _, v := range s.Declared {
 				if o, ok := orig[v]; !ok || o != string(v.Data) {
 					unchanged = false
-				} else if len(o) > 1 && writtenIdents[o] {
+				} else if len(o) > 1 && writtenIdents[o] && col2.seen[s] {
 					// the code of the scope is still there under its old (longer than one character) name: the scope was
-					// skipped by the renamer, not dropped
+					// skipped by the renamer, not dropped.  (Only for scopes still reachable from the final AST: a block that
+					// the optimiser replaced by its initialisers is gone, and another variable may carry the same name.)
 					unchanged = false
 				}
 			}
